@@ -4,6 +4,8 @@
 // enter actions, state-changed notifications, what scripted callback bodies observed and which
 // calls they made on ANY machine of the case) plus the return value and the five observers of
 // every machine after each call.  Same format as lean/Driver/C16.lean.
+// Machine k is named "m<k>", state <sid> gets the label "L<sid>", the i-th route of a state "R<i>";
+// `json [@k]` prints what toJson() of machine k (default: the root) put into the Json object.
 #include "vh.h"
 #include <deque>
 #include <functional>
@@ -11,19 +13,24 @@
 #include <memory>
 #include <set>
 #include <tbox/flow/state_machine.h>
+#include <tbox/base/json.hpp>
 
 using tbox::flow::Event;
 using tbox::flow::StateMachine;
+using tbox::Json;
 
 // ---- strict parsers (must accept exactly what the Lean driver accepts) ----
+// optional '-', 1..10 digits, value in [INT_MIN, INT_MAX]
 static bool p_int(const std::string &s, int &v) {
     size_t i = 0; bool neg = false;
     if (!s.empty() && s[0] == '-') { neg = true; i = 1; }
     size_t nd = s.size() - i;
-    if (nd == 0 || nd > 9) return false;
-    long x = 0;
+    if (nd == 0 || nd > 10) return false;
+    long long x = 0;                       // at most 10 digits: no overflow in 64 bits
     for (; i < s.size(); ++i) { if (s[i] < '0' || s[i] > '9') return false; x = x * 10 + (s[i] - '0'); }
-    v = (int)(neg ? -x : x);
+    if (neg) x = -x;
+    if (x < -2147483648LL || x > 2147483647LL) return false;    // the full range of `int`, nothing beyond
+    v = (int)x;
     return true;
 }
 static bool p_nat(const std::string &s, size_t &v) {
@@ -171,13 +178,13 @@ static bool def_line(Mach *m, const std::vector<std::string> &w, size_t o, bool 
     const char *pre = late ? "P def " : "P ";
     if (op == "st" && n == 4) {
         int sid; bool he, hx; Script se, sx;
-        if (!p_int(w[o+1], sid) || !p_probe(w[o+2], he, se) || !p_probe(w[o+3], hx, sx) || sid < 0) return false;
+        if (!p_int(w[o+1], sid) || !p_probe(w[o+2], he, se) || !p_probe(w[o+3], hx, sx)) return false;
         if (late && (!targets_ok(se) || !targets_ok(sx))) return false;
         note(se); note(sx);
         StateMachine::ActionFunc en, ex;
         if (he) en = [m, sid, se](Event e) { T(m, "enter " + S(sid) + " " + ES(e)); run_script(m, se); };
         if (hx) ex = [m, sid, sx](Event e) { T(m, "exit " + S(sid) + " " + ES(e)); run_script(m, sx); };
-        bool ok = m->sm.newState(sid, en, ex);
+        bool ok = m->sm.newState(sid, en, ex, "L" + S(sid));
         std::cout << pre << "st " << (ok ? 1 : 0) << "\n";
         return true;
     }
@@ -195,7 +202,7 @@ static bool def_line(Mach *m, const std::vector<std::string> &w, size_t o, bool 
             return r;
         };
         if (ha) a = [m, src, idx, as](Event e) { T(m, "act " + S(src) + " " + std::to_string(idx) + " " + ES(e)); run_script(m, as); };
-        bool ok = m->sm.addRoute(src, ev, dst, g, a);
+        bool ok = m->sm.addRoute(src, ev, dst, g, a, "R" + std::to_string(idx));
         if (ok) m->nroutes[src] = idx + 1;
         std::cout << pre << "rt " << (ok ? 1 : 0) << "\n";
         return true;
@@ -249,6 +256,52 @@ static bool def_line(Mach *m, const std::vector<std::string> &w, size_t o, bool 
     return false;
 }
 
+// ---- canonical text of what toJson() emitted (same text: lean/TboxModel/C16/Json.lean `aJson`) ----
+//   machine := {name=<s> run=<b> init=<i> term=<i> curr=<i or -> states=[<state>,…]}
+//   state   := {id=<i> label=<s> sub=<machine or -> routes=[(<event_id>><next_state_id>:<s>),…] events=[<i>,…]}
+// <s> = the string in double quotes, <b> = true/false, <i> = decimal; a missing member prints `~`
+// (`-` for curr_state / sub_sm, which the code leaves out), a member of another JSON type `?<type>`;
+// a null or missing array member is the empty list.  Members are looked up by key, arrays are
+// printed in the order the code pushed the elements.
+static std::string j_scalar(const Json &o, const char *key, char want, const char *absent = "~") {
+    auto it = o.find(key);
+    if (it == o.end()) return absent;
+    const Json &v = *it;
+    if (want == 's' && v.is_string()) return "\"" + v.get<std::string>() + "\"";
+    if (want == 'b' && v.is_boolean()) return v.get<bool>() ? "true" : "false";
+    if (want == 'i' && v.is_number_integer()) return std::to_string(v.get<long long>());
+    return std::string("?") + v.type_name();
+}
+template <class F> static std::string j_list(const Json &o, const char *key, F elem) {
+    auto it = o.find(key);
+    if (it == o.end() || it->is_null()) return "[]";
+    if (!it->is_array()) return std::string("?") + it->type_name();
+    std::string s = "["; bool first = true;
+    for (const Json &e : *it) { if (!first) s += ","; first = false; s += elem(e); }
+    return s + "]";
+}
+static std::string j_machine(const Json &js) {
+    if (!js.is_object()) return std::string("?") + js.type_name();
+    std::string s = "{name=" + j_scalar(js, "name", 's') + " run=" + j_scalar(js, "is_running", 'b') +
+        " init=" + j_scalar(js, "init_state", 'i') + " term=" + j_scalar(js, "term_state", 'i') +
+        " curr=" + j_scalar(js, "curr_state", 'i', "-") + " states=";
+    s += j_list(js, "states", [](const Json &st) -> std::string {
+        if (!st.is_object()) return std::string("?") + st.type_name();
+        auto sub = st.find("sub_sm");
+        std::string t = "{id=" + j_scalar(st, "id", 'i') + " label=" + j_scalar(st, "label", 's') +
+            " sub=" + (sub == st.end() ? std::string("-") : j_machine(*sub)) + " routes=";
+        t += j_list(st, "routes", [](const Json &r) -> std::string {
+            if (!r.is_object()) return std::string("?") + r.type_name();
+            return "(" + j_scalar(r, "event_id", 'i') + ">" + j_scalar(r, "next_state_id", 'i') + ":" + j_scalar(r, "label", 's') + ")";
+        });
+        t += " events=" + j_list(st, "events", [](const Json &e) -> std::string {
+            return e.is_number_integer() ? std::to_string(e.get<long long>()) : std::string("?") + e.type_name();
+        });
+        return t + "}";
+    });
+    return s + "}";
+}
+
 static bool call_line(std::vector<std::string> w) {
     size_t k = (size_t)g_root;
     if (w.size() >= 2 && w.back().size() >= 2 && w.back()[0] == '@') {
@@ -256,6 +309,12 @@ static bool call_line(std::vector<std::string> w) {
         w.pop_back();
     }
     StateMachine &sm = g_m[k]->sm;
+    if (w.size() == 1 && w[0] == "json") {          // toJson() is const: the snapshot after it shows that nothing moved
+        Json js; sm.toJson(js);
+        std::cout << "P J " << j_machine(js) << "\n";
+        print_snap();
+        return true;
+    }
     std::string res;
     if (w.size() == 1 && w[0] == "start") res = sm.start() ? "1" : "0";
     else if (w.size() == 1 && w[0] == "stop") { sm.stop(); res = "-"; }
@@ -285,6 +344,7 @@ int main() {
             g_m.emplace_back(new Mach());
             g_cur = (long)g_m.size() - 1;
             g_m.back()->idx = (size_t)g_cur;
+            g_m.back()->sm.setName("m" + std::to_string(g_cur));
             std::cout << "P mach " << g_cur << "\n";
             ok = true;
         } else if (w.size() == 2 && w[0] == "go") {
